@@ -234,7 +234,7 @@ impl Check for C17 {
                 Some(WRes::Ok(n)) => n,
                 _ => 16,
             };
-            if n_guess > 1 << 16 {
+            if n_guess > 1 << 19 {
                 return None;
             }
             let caps = capacities(n_guess, &mut ar, 160);
